@@ -115,12 +115,14 @@ Qed.
 Lemma q_of_facts c : wf15 c ->
   q_size (q_of c) = c_size c /\ q_raw (q_of c) = c_raw c /\ q_file (q_of c) = fstart c /\
   (if explicit_flags c then q_prot (q_of c) = c_prot c /\ q_flags (q_of c) = c_flags c
-   else hasbit (q_flags (q_of c)) 16 = false).
+   else hasbit (q_flags (q_of c)) 16 = false) /\
+  (doc_shared c = true -> fstart c <> None -> hasbit (q_flags (q_of c)) 1 = true).
 Proof.
-  intros W. pose proof (kind_cases c W) as K. unfold wf15 in W. unfold q_of, explicit_flags, fstart in *.
+  intros W. pose proof (kind_cases c W) as K. unfold wf15 in W. unfold q_of, explicit_flags, doc_shared, fstart in *.
   destruct K as [K|[K|[K|[K|[K|K]]]]]; rewrite K in *; cbn [N.eqb Pos.eqb kind_ok orb] in *;
     destruct (c_file c) as [[fl s]|]; destruct (c_raw c) as [a|]; cbn [negb andb] in W; try discriminate;
-    cbn [q_size q_raw q_file q_prot q_flags]; repeat split; try reflexivity.
+    cbn [q_size q_raw q_file q_prot q_flags]; repeat split; try reflexivity; try discriminate;
+    try (intros _ H; exfalso; apply H; reflexivity).
 Qed.
 
 
@@ -143,7 +145,7 @@ Lemma ok_accept c o : reasons c = [] -> (c_raw c <> None \/ o_probe o <> 0) ->
   match c_file c with
   | Some (_, s) => o_hasfile o = true /\ o_start o = s /\ o_samefd o = true
   | None => o_hasfile o = false end ->
-  ((o_coh1 o = 1 /\ o_coh2 o = 1) \/ o_coh1 o = 2) ->
+  ((doc_shared c || hasbit (o_flags o) 1) = true -> (o_coh1 o = 1 /\ o_coh2 o = 1) \/ o_coh1 o = 2) ->
   ok_C15 c o = true.
 Proof.
   intros E P R S F Fi C. unfold ok_C15. rewrite E, R, S, !N.eqb_refl.
@@ -159,9 +161,11 @@ Proof.
                 | None => negb (o_hasfile o) end) = true).
   { destruct (c_file c) as [[fl s]|]; [destruct Fi as [-> [-> ->]]; rewrite N.eqb_refl|rewrite Fi]; reflexivity. }
   rewrite X2. cbn [andb].
-  destruct C as [[-> ->] | ->].
-  - destruct (c_cohere c && o_hasfile o && hasbit (o_flags o) 1 && negb (hasbit (o_flags o) 32) && negb (1 =? 2)); reflexivity.
-  - rewrite N.eqb_refl. cbn [negb]. rewrite andb_false_r. reflexivity.
+  destruct (doc_shared c || hasbit (o_flags o) 1) eqn:DS.
+  - destruct (C eq_refl) as [[-> ->] | ->].
+    + destruct (c_cohere c && o_hasfile o && true && negb (hasbit (o_flags o) 32) && negb (1 =? 2)); reflexivity.
+    + rewrite N.eqb_refl. cbn [negb]. rewrite andb_false_r. reflexivity.
+  - rewrite andb_false_r. reflexivity.
 Qed.
 
 Definition probe_wf (c : case15) (probe : N) : Prop :=
@@ -189,7 +193,7 @@ Lemma C15_model_ok_lemma : forall c probe k, wf15 c -> c_page c = 2 ^ k -> probe
   ok_C15 c (run_C15 c probe) = true.
 Proof.
   intros c probe k W Hp PW.
-  destruct (q_of_facts c W) as [F1 [F2 [F3 F4]]].
+  destruct (q_of_facts c W) as [F1 [F2 [F3 [F4 F5]]]].
   unfold run_C15. rewrite (construct_cases c (os_of c probe) k W Hp).
   unfold build_result, post, request_region, mmap_ev. rewrite F1, F2, F3.
   unfold os_of. cbn [os_page os_filesize os_mmap_ok].
@@ -214,12 +218,12 @@ Proof.
            apply ok_accept; cbn [o_res o_size o_prot o_flags o_hasfile o_start o_samefd o_coh1 o_coh2 g_size g_prot g_flags g_file g_owned g_addr]; auto.
            ++ left. rewrite Hr. discriminate.
            ++ unfold fstart. destruct (c_file c) as [[? ?]|]; auto.
-           ++ match goal with |- context [coh_tested ?c ?g] => destruct (coh_tested c g) end; auto.
+           ++ intros _. right. unfold coh_tested. cbn [g_owned]. rewrite andb_false_r. reflexivity.
       * destruct RS as [[]|RS].
         apply ok_accept; cbn [o_res o_size o_prot o_flags o_hasfile o_start o_samefd o_coh1 o_coh2 g_size g_prot g_flags g_file g_owned g_addr]; auto.
         -- left. rewrite Hr. discriminate.
         -- unfold fstart. destruct (c_file c) as [[? ?]|]; auto.
-        -- match goal with |- context [coh_tested ?c ?g] => destruct (coh_tested c g) end; auto.
+        -- intros _. right. unfold coh_tested. cbn [g_owned]. rewrite andb_false_r. reflexivity.
     + apply ok_err.
       * destruct (c_file c) as [[? ?]|]; cbn; discriminate.
       * destruct (c_file c) as [[? ?]|]; cbn [o_res obs_err berr_code]; unfold reasons; rewrite Hr;
@@ -280,7 +284,8 @@ Proof.
                   o_pos := pos;
                   o_d1 := Z.to_N (foot (c_page c) l');
                   o_d2 := Z.to_N (foot (c_page c) (l' ++ drop_region g0));
-                  o_coh1 := if t then 1 else 2; o_coh2 := if t then 1 else 2 |}
+                  o_coh1 := if t then 1 else 2;
+                  o_coh2 := if t then (if hasbit (g_flags g0) MAP_SHARED then 1 else 0) else 2 |}
            end) = true).
       { intros l0 FT RB P1 g l. subst g l. cbn [g_size].
         assert (FA : forall a b, foot (c_page c) (a ++ b) = (foot (c_page c) a + foot (c_page c) b)%Z).
@@ -297,11 +302,21 @@ Proof.
           + apply ok_accept; cbn [o_res o_size o_prot o_flags o_hasfile o_start o_samefd o_coh1 o_coh2 o_probe g_size g_prot g_flags g_file g_owned g_addr]; auto.
             * right. rewrite P1. discriminate.
             * unfold fstart. destruct (c_file c) as [[? ?]|]; auto.
-            * match goal with |- context [coh_tested ?c ?g] => destruct (coh_tested c g) end; auto.
+            * intros DS. match goal with |- context [coh_tested ?c ?g] => destruct (coh_tested c g) eqn:T end; [left|right; reflexivity].
+              split; [reflexivity|]. cbn [g_flags o_flags] in *. change MAP_SHARED with 1.
+              apply orb_true_iff in DS. destruct DS as [DS|DS]; [|rewrite DS; reflexivity].
+              unfold coh_tested in T. cbn [g_owned g_file g_flags g_prot g_size] in T.
+              repeat (apply andb_true_iff in T; let H := fresh "T" in destruct T as [T H]).
+              rewrite F5; [reflexivity|exact DS|]. destruct (fstart c); [discriminate|discriminate].
         - apply ok_accept; cbn [o_res o_size o_prot o_flags o_hasfile o_start o_samefd o_coh1 o_coh2 o_probe g_size g_prot g_flags g_file g_owned g_addr]; auto.
           + right. rewrite P1. discriminate.
           + unfold fstart. destruct (c_file c) as [[? ?]|]; auto.
-          + match goal with |- context [coh_tested ?c ?g] => destruct (coh_tested c g) end; auto. }
+          + intros DS. match goal with |- context [coh_tested ?c ?g] => destruct (coh_tested c g) eqn:T end; [left|right; reflexivity].
+              split; [reflexivity|]. cbn [g_flags o_flags] in *. change MAP_SHARED with 1.
+              apply orb_true_iff in DS. destruct DS as [DS|DS]; [|rewrite DS; reflexivity].
+              unfold coh_tested in T. cbn [g_owned g_file g_flags g_prot g_size] in T.
+              repeat (apply andb_true_iff in T; let H := fresh "T" in destruct T as [T H]).
+              rewrite F5; [reflexivity|exact DS|]. destruct (fstart c); [discriminate|discriminate]. }
       unfold fstart in *.
       destruct (c_file c) as [[fl s]|] eqn:Hf.
       * destruct (N.leb_spec W64 (s + c_size c)) as [O|O].
